@@ -37,6 +37,7 @@ def run(tier):
         PROP, tier, progs,
         "operand pairs from {number, numeric string, string, plain table, tables with metatable A/A/B, userdata with metatable A/B, nil, boolean} x every arithmetic/concat/comparison operator x handler presence {none, A only, B only, both same handler, both different, both twin closures of one function literal} x handler result kind x __metatable {absent, string, false, true, decoy table of handlers}, sampled from %d combinations (operands both as constants/upvalues and as registers); <= fallback to not(b<a); unary minus; __index/__newindex chains of depth 1-4 through tables and functions with raw bypass; __call in call/tail/statement/for-in/host re-entry/pcall/nested position; tostring/__metatable/getmetatable/setmetatable" % nspace,
         [], t0, max_steps=20000, extra_cov={"binop_space": nspace}, nontrivial_min_emits=2)
+    lsem.foot_pass(PROP, progs, verd, stats, cov)      # Frames stage 2 (specs/FramesStep.tla)
     rc = verd.finish()
     cov["known_findings_hit"] = sorted(verd.known_hit)
     vlib.write_evidence(PROP, tier, "model_checking", cov, time.time() - t0, len(verd.violations), assumptions=[
@@ -46,6 +47,8 @@ def run(tier):
 
 def replay(path):
     rec = json.load(open(path))
+    if rec["replay"].get("foot"):
+        return lsem.replay_foot(PROP, rec)
     p = rec["replay"]["program"]
     verd = vlib.Verdicts(PROP)
     verd.findings = []
